@@ -13,7 +13,7 @@ struct Case { size_t file; uint64_t mask; };   // mask over the file's type tabl
 std::vector<Case> g_cases;
 
 struct Plan { int exhaustiveUpTo; int randomPerFile; int synPerVersion; int apiModels; };
-Plan plan() { return g_cfg.tier ? Plan{9, 160, 60, 24} : Plan{6, 10, 8, 6}; }
+Plan plan() { return g_cfg.tier ? Plan{9, 160, 60, 24} : Plan{7, 24, 16, 12}; }
 
 void addFile(const std::string& name, const std::string& bytes) {
 	indep::Header h = indep::parse(bytes);
@@ -49,6 +49,44 @@ void init() {
 		ao.segments = true;
 		ApiModel m = buildApiModel(mix(g_cfg.seed, 0xC03A00 + (uint64_t)i), i, &ao);
 		if (m.ok) addFile("api:" + m.desc, m.bytes);
+	}
+	// FO3 models whose shapes carry a NiTexturingProperty with source textures: their file names are string-table entries that
+	// the loader's texture path clean-up rewrites in memory (the only load-time edit of string-table content)
+	for (int i = 0; i < (g_cfg.tier ? 40 : 6); i++) {
+		Rng rng(mix(g_cfg.seed, 0xC03D00 + (uint64_t)i));
+		static const char* DIRTY[] = {"Data\\Textures\\Landscape\\Rock01.dds", "textures/armor//iron\\/cuirass.dds", "\\textures\\x.dds", "plain.dds", "  textures\\padded.dds ", "C:\\game\\data\\textures\\abs.dds", "textures\\clean.dds", "TEXTURES\\Upper.DDS"};
+		NifFile nif;
+		nif.Create(toNiVersion(*findVer("FO3")));
+		std::vector<Vector3> V{{0, 0, 0}, {1, 0, 0}, {0, 1, 0}};
+		std::vector<Triangle> T{{0, 1, 2}};
+		std::vector<Vector2> UV{{0, 0}, {1, 0}, {0, 1}};
+		int nshapes = 1 + (int)rng.below(2);
+		for (int k = 0; k < nshapes; k++) {
+			std::string name = "tex" + std::to_string(k);
+			auto sh = nif.CreateShapeFromData(name, &V, &T, &UV);
+			if (!sh) break;
+			if (rng.coin()) nif.DeleteShader(sh);
+			sh = nif.FindBlockByName<NiShape>(name);
+			auto tp = std::make_unique<NiTexturingProperty>();
+			tp->textureCount = 7;
+			bool* has[4] = {&tp->hasBaseTex, &tp->hasDarkTex, &tp->hasDetailTex, &tp->hasGlowTex};
+			TexDesc* td[4] = {&tp->baseTex, &tp->darkTex, &tp->detailTex, &tp->glowTex};
+			int nt = 1 + (int)rng.below(4);
+			for (int q = 0; q < nt; q++) {
+				auto st = std::make_unique<NiSourceTexture>();
+				st->fileName.get() = DIRTY[rng.below(8)];
+				*has[q] = true;
+				td[q]->sourceRef.index = nif.GetHeader().AddBlock(std::move(st));
+			}
+			uint32_t id = nif.GetHeader().AddBlock(std::move(tp));
+			sh = nif.FindBlockByName<NiShape>(name);
+			sh->propertyRefs.AddBlockRef(id);
+		}
+		auto ed = std::make_unique<NiStringExtraData>();
+		ed->name.get() = "Prn";
+		ed->stringData.get() = "Bip01 Head";
+		nif.AssignExtraData(nif.GetRootNode(), std::move(ed));
+		addFile(fmt("api-texturing:FO3:%d", i), saveNif(nif, true));
 	}
 	for (size_t fi = 0; fi < g_files.size(); fi++) {
 		size_t nt = g_files[fi].h.types.size();
